@@ -157,6 +157,7 @@ func describe(co *insts.KernelCodeObject) rec {
 }
 
 type child struct {
+	off    int64 // byte offset of the current job line
 	out    *bufio.Writer
 	ctl    *bufio.Writer
 	tmp    string
@@ -234,7 +235,7 @@ func (c *child) runJob(ji int, j *Job, fromLoad int, skipFile bool) error {
 		loads = autoLoads(sum)
 	}
 	for li := fromLoad; li < len(loads); li++ {
-		fmt.Fprintf(c.ctl, "P %d %d %s\n", ji, li, loads[li].Name)
+		fmt.Fprintf(c.ctl, "P %d %d %d %s\n", ji, li, c.off, loads[li].Name)
 		c.ctl.Flush()
 		r := c.load(img, j.Path, loads[li])
 		r["id"] = j.ID
@@ -244,9 +245,13 @@ func (c *child) runJob(ji int, j *Job, fromLoad int, skipFile bool) error {
 	return nil
 }
 
-func childMain(jobsPath, outPath string, fromJob, fromLoad int, skipFile bool) {
+func childMain(jobsPath, outPath string, fromJob, fromLoad int, skipFile bool, fromOff int64) {
 	jf, err := os.Open(jobsPath)
 	if err != nil {
+		fmt.Fprintln(os.Stderr, err)
+		os.Exit(3)
+	}
+	if _, err := jf.Seek(fromOff, 0); err != nil {
 		fmt.Fprintln(os.Stderr, err)
 		os.Exit(3)
 	}
@@ -258,27 +263,32 @@ func childMain(jobsPath, outPath string, fromJob, fromLoad int, skipFile bool) {
 	tmp, _ := os.MkdirTemp("", "c13_")
 	defer os.RemoveAll(tmp)
 	c := &child{out: bufio.NewWriterSize(of, 1<<20), ctl: bufio.NewWriter(os.Stdout), tmp: tmp}
-	sc := bufio.NewScanner(jf)
-	sc.Buffer(make([]byte, 1<<20), 1<<28)
-	ji := -1
-	for sc.Scan() {
-		ji++
-		if ji < fromJob {
-			continue
+	rd := bufio.NewReaderSize(jf, 1<<20)
+	ji := fromJob - 1
+	off := fromOff
+	for {
+		line, rerr := rd.ReadBytes('\n')
+		if len(bytes.TrimSpace(line)) > 0 {
+			ji++
+			var j Job
+			if err := json.Unmarshal(line, &j); err != nil {
+				fmt.Fprintln(os.Stderr, "bad job:", err)
+				os.Exit(3)
+			}
+			fl, sk := 0, false
+			if ji == fromJob {
+				fl, sk = fromLoad, skipFile
+			}
+			c.off = off
+			if err := c.runJob(ji, &j, fl, sk); err != nil {
+				fmt.Fprintln(os.Stderr, err)
+				os.RemoveAll(tmp)
+				os.Exit(3)
+			}
 		}
-		var j Job
-		if err := json.Unmarshal(sc.Bytes(), &j); err != nil {
-			fmt.Fprintln(os.Stderr, "bad job:", err)
-			os.Exit(3)
-		}
-		fl, sk := 0, false
-		if ji == fromJob {
-			fl, sk = fromLoad, skipFile
-		}
-		if err := c.runJob(ji, &j, fl, sk); err != nil {
-			fmt.Fprintln(os.Stderr, err)
-			os.RemoveAll(tmp)
-			os.Exit(3)
+		off += int64(len(line))
+		if rerr != nil {
+			break
 		}
 	}
 	c.out.Flush()
@@ -291,12 +301,13 @@ func main() {
 	jobs := flag.String("jobs", "", "ndjson file of jobs")
 	out := flag.String("out", "trace.ndjson", "ndjson trace to write")
 	isChild := flag.Bool("child", false, "internal: run loads in this process")
-	from := flag.String("from", "0:0:0", "internal: job:load:skipfile to resume at")
+	from := flag.String("from", "0:0:0:0", "internal: job:load:skipfile:byteoffset to resume at")
 	flag.Parse()
 	if *isChild {
 		var fj, fl, sk int
-		fmt.Sscanf(*from, "%d:%d:%d", &fj, &fl, &sk)
-		childMain(*jobs, *out, fj, fl, sk != 0)
+		var fo int64
+		fmt.Sscanf(*from, "%d:%d:%d:%d", &fj, &fl, &sk, &fo)
+		childMain(*jobs, *out, fj, fl, sk != 0, fo)
 		return
 	}
 	os.Remove(*out)
@@ -306,9 +317,10 @@ func main() {
 		os.Exit(2)
 	}
 	fj, fl, sk := 0, 0, 0
+	var fo int64
 	loads, events, panics, fatals, restarts := 0, 0, 0, 0, 0
 	for {
-		cmd := exec.Command(self, "-child", "-jobs", *jobs, "-out", *out, "-from", fmt.Sprintf("%d:%d:%d", fj, fl, sk))
+		cmd := exec.Command(self, "-child", "-jobs", *jobs, "-out", *out, "-from", fmt.Sprintf("%d:%d:%d:%d", fj, fl, sk, fo))
 		var so, se bytes.Buffer
 		cmd.Stdout, cmd.Stderr = &so, &se
 		err := cmd.Run()
@@ -333,10 +345,11 @@ func main() {
 		}
 		// the loader ended the process (log.Fatal) during the load announced last
 		var pj, pl int
-		fmt.Sscanf(last, "P %d %d", &pj, &pl)
+		var po int64
+		fmt.Sscanf(last, "P %d %d %d", &pj, &pl, &po)
 		name := ""
-		if parts := strings.SplitN(last, " ", 4); len(parts) == 4 {
-			name = parts[3]
+		if parts := strings.SplitN(last, " ", 5); len(parts) == 5 {
+			name = parts[4]
 		}
 		msg := strings.TrimSpace(se.String())
 		if i := strings.LastIndex(msg, "\n"); i >= 0 {
@@ -357,7 +370,7 @@ func main() {
 		restarts++
 		loads += np
 		events += np // approximation: one line per announced load (File lines not counted here)
-		fj, fl, sk = pj, pl+1, 1
+		fj, fl, sk, fo = pj, pl+1, 1, po
 	}
 	st, _ := json.Marshal(rec{"loads": loads, "events": events, "panics": panics, "fatals": fatals, "restarts": restarts})
 	fmt.Println(string(st))
